@@ -34,6 +34,18 @@ impl Default for State {
   }
 }
 
+/// End every task of the previous case under scheduler control before its structures are replaced.
+fn retire_all(st: &mut State) {
+  // parked consumers can only finish once producers are done and vice versa: a few rounds
+  for _ in 0..3 {
+    for t in st.tasks.values_mut() {
+      t.retire();
+    }
+  }
+  st.tasks.clear();
+  st.partial.clear();
+}
+
 fn res_unit(r: Result<(), rzmq::ZmqError>) -> String {
   match r {
     Ok(()) => "ok".into(),
@@ -45,8 +57,7 @@ pub fn run_op(st: &mut State, p: &[&str]) -> String {
   match p[0] {
     "rpq" => match p[1] {
       "new" => {
-        // abandon tasks of the previous case (their threads stay parked; the process is short-lived)
-        st.tasks.clear();
+        retire_all(st);
         st.senders.clear();
         st.rpq = VRpq::new(p[2].parse().unwrap());
         "ok".into()
@@ -69,7 +80,7 @@ pub fn run_op(st: &mut State, p: &[&str]) -> String {
     },
     "wg" => match p[1] {
       "new" => {
-        st.tasks.clear();
+        retire_all(st);
         st.wg = VWaitGroup::new();
         "ok".into()
       }
@@ -85,7 +96,7 @@ pub fn run_op(st: &mut State, p: &[&str]) -> String {
     },
     "lb" => match p[1] {
       "new" => {
-        st.tasks.clear();
+        retire_all(st);
         st.lb = Arc::new(VLoadBalancer::new());
         "ok".into()
       }
